@@ -162,6 +162,8 @@ pub fn one_run(ctx: &Ctx, idx: u64, out: &mut RunOut) {
     for k in 0..8u64 {
         let h = chal::gen_history(&mut rng, order, d, rate, ctx.tier.pick(24, 40), true);
         let recompose = rng.chance(1, 2);
+        // every other history goes through the slice / vector entry points of the trait
+        let h = if k % 2 == 1 { chal::sliceify(&mut Rng::new(ctx.seed, "C05-slices", idx * 8 + k), &h) } else { h };
         let hs = mix(mix(ctx.seed, idx), k);
         let o = run_cfg(cfg, &h, recompose, hs);
         out.evals += 1;
@@ -250,7 +252,7 @@ pub fn main(ctx: &Ctx) -> i32 {
         runs,
         Spec {
             level: "exploration",
-            rule: "seeded challenger histories of 1..24/40 operations (observe, observe_ext, sample, sample_ext, sample_bits(0..20), check_pow_witness(0..6 bits, valid witness ground natively or witness+1), clear; biased so that the input buffer crosses RATE, the output buffer drains exactly, observes follow partial drains, clear lands mid-buffer) in seven configurations (KoalaBear/BabyBear D4 W16 Poseidon2, KoalaBear D1 W16 Poseidon2 and Poseidon1, Goldilocks D2 W8 Poseidon2 and Poseidon1, KoalaBear quintic circuit with the base-field D1 W16 Poseidon2 challenger), recompose table on/off, seeded hash order; every sampled target is tagged and compared with the native DuplexChallenger, plus one residual sample. distinct = distinct (config, recompose, input-buffer length, output-buffer length, op kind) states reached.",
+            rule: "seeded challenger histories of 1..24/40 operations (observe, observe_ext, sample, sample_ext, observe_slice / observe_ext_slice / sample_ext_vec incl. empty ones (every other history), sample_bits(0..20), check_pow_witness(0..6 bits, valid witness ground natively or witness+1), clear; biased so that the input buffer crosses RATE, the output buffer drains exactly, observes follow partial drains, clear lands mid-buffer) in seven configurations (KoalaBear/BabyBear D4 W16 Poseidon2, KoalaBear D1 W16 Poseidon2 and Poseidon1, Goldilocks D2 W8 Poseidon2 and Poseidon1, KoalaBear quintic circuit with the base-field D1 W16 Poseidon2 challenger), recompose table on/off, seeded hash order; every sampled target is tagged and compared with the native DuplexChallenger, plus one residual sample. distinct = distinct (config, recompose, input-buffer length, output-buffer length, op kind) states reached.",
             exhaustive: false,
             assumptions: vec!["p3_challenger::DuplexChallenger is the reference model".into()],
             components_real: vec!["CircuitChallenger", "CircuitBuilder (perm NPO, recompose, decompositions)", "CircuitRunner", "Poseidon executors"],
